@@ -249,6 +249,20 @@ def gen_list_first_shape(rng):
     return [4, inner, gen_shape(rng, 1)]        # a keyed list whose first row is a keyed list
 
 
+def with_remounts(rng, ls):
+    """now and then the list is unmounted and mounted again between two updates"""
+    if rng.random() < 0.75:
+        return ls
+    out = [ls[0]]
+    for l in ls[1:]:
+        if rng.random() < 0.3:
+            out.append([-1])
+        out.append(l)
+    if rng.random() < 0.3:
+        out.append([-1])
+    return out
+
+
 def gen_shaped(rng):
     p = rng.choice([1, 2, 2, 3, 3, 4])
     shapes = [gen_list_first_shape(rng) if rng.random() < 0.6 else gen_shape(rng, rng.choice([1, 2, 2, 3])) for _ in range(p)]
@@ -257,7 +271,7 @@ def gen_shaped(rng):
     ls = [rand_list(rng, 6, nk)]
     for _ in range(rng.randint(1, 5)):
         ls.append(mutate(rng, ls[-1], nk) if rng.random() < 0.75 else rand_list(rng, 6, nk))
-    return dict(case=C.norm([20, npre, npost, ls, shapes]), kind="shaped-rows")
+    return dict(case=C.norm([20, npre, npost, with_remounts(rng, ls), shapes]), kind="shaped-rows")
 
 
 def generate(rng, tier):
@@ -280,6 +294,16 @@ def generate(rng, tier):
         for _ in range(rng.randint(1, 6)):
             ls.append(mutate(rng, ls[-1], nk) if rng.random() < 0.8 else rand_list(rng, 6, nk))
         yield dict(case=C.norm([mode, npre, npost, ls]), kind="leptos-For" if mode == 11 else "leptos-ForEnumerate")
+    # rows that are plain elements: keyed(..).add_any_attr(..) with String keys (4); SSR + hydrate + rebuild (5)
+    for i in range(2500 if tier == "quick" else 25000):
+        mode = 4 if i % 2 == 0 else 5
+        npre, npost = rng.choice([(0, 0), (1, 1), (0, 1), (1, 0)]) if mode == 5 else rng.choice([(0, 0), (1, 1), (0, 1), (2, 0), (1, 2)])
+        nk = rng.choice([3, 5, 8])
+        ls = [rand_list(rng, 6, nk)]
+        for _ in range(rng.randint(1, 5)):
+            ls.append(mutate(rng, ls[-1], nk) if rng.random() < 0.8 else rand_list(rng, 6, nk))
+        yield dict(case=C.norm([mode, npre, npost, with_remounts(rng, ls)]),
+                   kind="keyed+add_any_attr, String keys" if mode == 4 else "keyed: to_html -> hydrate -> rebuild")
     # nested <For>: rows that are an inner <For> over their own signal (+ a trailing <li> for odd keys); oracle only
     for i in range(2000 if tier == "quick" else 20000):
         npre, npost = rng.choice([(0, 0), (1, 1), (0, 1), (2, 0)])
@@ -302,7 +326,11 @@ def generate(rng, tier):
         vias = [0, 4] if style < 0.15 else ([1, 2, 3, 5] if style < 0.4 else [0, 1, 2, 3, 4, 5])
         bumps = [0] if rng.random() < 0.5 else [0, 0, 1, 2]
         ops = [rng.choice(vias) + 10 * rng.choice(bumps) for _ in ls]
-        yield dict(case=C.norm([14, npre, npost, ls, ops]), kind="leptos-For-over-keyed-store-field")
+        # the via digit of the first op selects the store: 0 Store, 1 ArcStore, 2 Store iterated backwards, 3 root-level field
+        variant = rng.choice([0, 0, 1, 1, 2, 3])
+        ops[0] = variant + 10 * (ops[0] // 10)
+        yield dict(case=C.norm([14, npre, npost, ls, ops]),
+                   kind="leptos-For-over-keyed-store-field" + ["", " (ArcStore)", " (backwards)", " (root field)"][variant])
     # rows that are (or start with) keyed lists / Vec / Option / Either / tuples / arrays / StaticVec
     for i in range(4000 if tier == "quick" else 40000):
         yield gen_shaped(rng)
@@ -325,7 +353,10 @@ def generate(rng, tier):
             ls = [rand_list(rng, 8, nk)]
             for _ in range(rng.randint(3, 8)):
                 ls.append(mutate(rng, ls[-1], nk) if rng.random() < 0.7 else rand_list(rng, 8, nk))
-            yield dict(case=C.norm([m, npre, npost, ls]), kind="history")
+            yield dict(case=C.norm([m, npre, npost, with_remounts(rng, ls)]), kind="history")
+
+
+TACHYS_MODES = (1, 2, 3, 4, 5, 20)       # tachys keyed(..) driven directly (modes 11-14 go through leptos <For>)
 
 
 def valid_case(item):
@@ -343,16 +374,20 @@ def valid_case(item):
         return False
     if m == 20 and not (isinstance(c[4], list) and 1 <= len(c[4]) <= 4 and all(valid_shape(x) for x in c[4])):
         return False
-    if m not in (1, 2, 3, 11, 12, 13, 14, 20) or not (0 <= npre <= 4) or not (0 <= npost <= 4) or not ls:
+    if m not in (1, 2, 3, 4, 5, 11, 12, 13, 14, 20) or not (0 <= npre <= 4) or not (0 <= npost <= 4) or not ls:
         return False
-    for l in ls:
+    if m == 5 and (npre > 1 or npost > 1):
+        return False
+    for i, l in enumerate(ls):
+        if l == [-1] and i > 0 and m in TACHYS_MODES:
+            continue            # unmount + mount again
         if not isinstance(l, list) or any((not isinstance(k, int)) or k < 0 for k in l) or len(set(l)) != len(l):
             return False
     return True
 
 
 # ---------------------------------------------------------------------------------------------- oracle
-def check_step(js_of, npre, npost, frm, to, before, old_gen, children, log):
+def check_step(js_of, npre, npost, frm, to, before, old_gen, children, log, plain=False):
     """the property statement, checked directly on one observed update.
     js_of(key) = the indices j of the visible nodes of that key's item, in order (range(m) for m-node items);
     before: labels (k,g,j) of the parent's children before the step; old_gen: key -> gen before the step.
@@ -417,7 +452,7 @@ def check_step(js_of, npre, npost, frm, to, before, old_gen, children, log):
             if builds.get(k, []) != [g]:
                 return "new key %d was built %d times" % (k, len(builds.get(k, []))), None
     for k in frm:
-        if k not in to:
+        if k not in to and not plain:       # (plain element rows cannot log their unmount; their nodes are gone: counted above)
             if not any(e[0] == 2 and e[1] == k and e[2] == old_gen[k] for e in log):
                 return "removed key %d was not unmounted" % k, None
     return None, new_gen
@@ -557,7 +592,7 @@ def oracle(item, impl):
         shapes = [[j for j, v in enumerate(flatten(s)) if v] for s in item["case"][4]]
         js_of = lambda k: shapes[k % len(shapes)]
     else:
-        js_of = lambda k: list(range(m))
+        js_of = lambda k: list(range(1 if m in (4, 5) else m))
     if isinstance(impl, str):
         if m == 14:
             return ("panic while the <For> over the keyed store field was (re)rendering - a row's AtKeyed handle (src/"
@@ -568,22 +603,39 @@ def oracle(item, impl):
         if len(impl) != len(ls):
             return "harness returned %d entries for %d lists" % (len(impl), len(ls))
         return check_for(m, npre, npost, ls, impl)
-    if len(impl) != len(ls):
-        return "harness returned %d steps for %d lists" % (len(impl), len(ls))
+    if len(impl) != len(ls) + 1:
+        return "harness returned %d entries for %d steps + the final unmount" % (len(impl), len(ls))
+    plain = m in (4, 5)
     before = [(-1, 0, i) for i in range(npre)] + [(-2, 0, j) for j in range(npost)]
     old_gen, frm = {}, []
     for s, (to, step) in enumerate(zip(ls, impl)):
         children, log = step
-        msg, new_gen = check_step(js_of, npre, npost, frm, to, before, old_gen, children, log)
+        if any(c[0] >= 0 and c[2] >= 100 for c in children):
+            return "update %d: a row does not carry the attribute added to the list with add_any_attr" % s
+        remount = to == [-1]
+        if remount:
+            to = frm        # unmounted and mounted again: same order, same nodes, nothing built
+        msg, new_gen = check_step(js_of, npre, npost, frm, to, before, old_gen, children, log, plain)
         if msg:
-            return "update %d (%r -> %r): %s" % (s, frm, to, msg)
+            return "update %d (%s%r -> %r): %s" % (s, "unmount + mount again, " if remount else "", frm, to, msg)
         before = [tuple(c[:3]) for c in children]
         old_gen, frm = new_gen, to
+    # the final unmount: exactly the siblings are left, they are the very same nodes, every item was unmounted once
+    children, log = impl[-1]
+    want = [(-1, 0, i) for i in range(npre)] + [(-2, 0, j) for j in range(npost)]
+    if [tuple(c[:3]) for c in children] != want:
+        return "unmount left %r in the parent, expected the %d siblings only" % ([tuple(c[:3]) for c in children], len(want))
+    if any(c[3] < 0 or c[3] >= len(before) or tuple(before[c[3]]) != tuple(c[:3]) for c in children):
+        return "unmount replaced a sibling"
+    if not plain:
+        got = sorted((e[1], e[2]) for e in log if e[0] == 2)
+        if got != sorted(old_gen.items()):
+            return "unmount: items unmounted %r, rendered items were %r" % (got, sorted(old_gen.items()))
     return None
 
 
 def nontrivial(item, model):
-    ls = item["case"][3]
+    ls = [l for l in item["case"][3] if l != [-1]]
     return any(a != b for a, b in zip(ls, ls[1:]))
 
 
@@ -614,8 +666,9 @@ def describe(item):
     m, npre, npost, ls = item["case"][:4]
     if m == 20:
         sh = item["case"][4]
-        return "keyed list whose row for key k is shape[k mod %d] of {%s}, %d leading / %d following siblings: %s" % (
-            len(sh), " ; ".join(show_shape(x) for x in sh), npre, npost, " -> ".join(str(l) for l in ls))
+        return "keyed list whose row for key k is shape[k mod %d] of {%s}, %d leading / %d following siblings: %s; unmount" % (
+            len(sh), " ; ".join(show_shape(x) for x in sh), npre, npost,
+            " -> ".join("unmount+mount" if l == [-1] else str(l) for l in ls))
     if m == 13:
         bases = item["case"][4]
         return ("leptos nested <For> (outer row k = inner <For> over pick(base, k)%s), %d leading / %d following siblings: outer "
@@ -633,14 +686,20 @@ def describe(item):
     if m in (11, 12):
         return "leptos %s with stateful rows, %d leading / %d following siblings: %s" % (
             "<For>" if m == 11 else "<ForEnumerate>", npre, npost, " -> ".join(str(l) for l in ls))
-    return "keyed list, %d node(s) per item, %d leading / %d following siblings: %s" % (
-        m, npre, npost, " -> ".join(str(l) for l in ls))
+    if m == 4:
+        return "keyed(items, |k| format!(\"k{k}\"), ..).add_any_attr(class(\"row\")), <span> rows, %d leading / %d following siblings: %s; unmount" % (
+            npre, npost, " -> ".join("unmount+mount" if l == [-1] else str(l) for l in ls))
+    if m == 5:
+        return "keyed list of <li> rows rendered to HTML, hydrated, then updated, %d leading / %d following <b> siblings: %s; unmount" % (
+            npre, npost, " -> ".join("unmount+mount" if l == [-1] else str(l) for l in ls))
+    return "keyed list, %d node(s) per item, %d leading / %d following siblings: %s; unmount" % (
+        m, npre, npost, " -> ".join("unmount+mount" if l == [-1] else str(l) for l in ls))
 
 
 def coverage_extra(results):
     pairs = set()
     for r in results:
-        ls = r["item"]["case"][3]
+        ls = [l for l in r["item"]["case"][3] if l != [-1]]
         for a, b in zip(ls, ls[1:]):
             pairs.add((tuple(a), tuple(b)))
     names = {0: "text", 1: "unit", 2: "span", 3: "tuple", 4: "nested-keyed", 5: "vec", 6: "option", 7: "either", 8: "eitherof3",
